@@ -37,6 +37,9 @@ pub struct Layout {
     /// the tree (its children are black or absent).  The crate validates colours per edge
     /// of a sibling tree only.
     pub red_tops: bool,
+    /// One DIFAT sector more than the FAT sectors need at the end of the DIFAT chain (all
+    /// entries FREESECT); only in images that have a DIFAT chain at all.
+    pub spare_difat: bool,
 }
 
 impl Layout {
@@ -54,11 +57,12 @@ impl Layout {
             spare_fat: *rng.pick(&[0usize, 0, 0, 1, 2]),
             minor_version: *rng.pick(&[0x3Eu16, 0x3E, 0x3E, 0x3E, 0x3B, 0x21, 0x3F, 0]),
             red_tops: rng.chance(1, 6),
+            spare_difat: rng.chance(1, 2),
         }
     }
     /// The layout family the library's own writer produces (used as a control).
     pub fn canonical(version: u16) -> Layout {
-        Layout { version, free_pct: 0, dir_gap_pct: 0, free_mini_pct: 0, permute_sectors: false, permute_chains: false, rb_trees: false, min_total_sectors: 0, dirty_slack: false, spare_fat: 0, minor_version: 0x3E, red_tops: false }
+        Layout { version, free_pct: 0, dir_gap_pct: 0, free_mini_pct: 0, permute_sectors: false, permute_chains: false, rb_trees: false, min_total_sectors: 0, dirty_slack: false, spare_fat: 0, minor_version: 0x3E, red_tops: false, spare_difat: false }
     }
 }
 
@@ -361,7 +365,7 @@ pub fn synthesize(model: &Model, layout: &Layout, rng: &mut Rng) -> (Vec<u8>, Fe
         loop {
             let total = used0 + free_sectors + f_count + d_count;
             let nf = (total + per_fat - 1) / per_fat + layout.spare_fat;
-            let nd = if nf > 109 { (nf - 109 + per_fat - 2) / (per_fat - 1) } else { 0 };
+            let nd = if nf > 109 { (nf - 109 + per_fat - 2) / (per_fat - 1) + usize::from(layout.spare_difat) } else { 0 };
             if nf == f_count && nd == d_count {
                 break;
             }
@@ -632,6 +636,41 @@ pub fn overlong_mini_chains(bytes: &mut [u8], rng: &mut Rng) -> usize {
     done
 }
 
+/// The same for regular streams: up to two chains get one FREE sector appended (garbage
+/// inside), so that the chain is longer than the stream's length needs.
+pub fn overlong_regular_chains(bytes: &mut [u8], rng: &mut Rng) -> usize {
+    let img = match crate::refparse::parse(bytes) {
+        Ok(i) => i,
+        Err(_) => return 0,
+    };
+    let mut free: Vec<u32> = (0..img.nsect.min(img.fat.len()) as u32).filter(|&x| img.fat[x as usize] == FREE).collect();
+    let mut done = 0;
+    for e in img.entries.iter().filter(|e| e.obj_type == 2 && e.size >= 4096).take(8) {
+        if free.is_empty() || done >= 2 {
+            break;
+        }
+        if !rng.chance(1, 2) {
+            continue;
+        }
+        let mut probs = Vec::new();
+        let chain = img.chain(e.start, "stream", &mut probs);
+        let (last, x) = match (chain.last(), free.pop()) {
+            (Some(&l), Some(x)) => (l, x),
+            _ => break,
+        };
+        if let (Some(o_last), Some(o_x)) = (img.fat_cell_off(last as usize), img.fat_cell_off(x as usize)) {
+            wr32(bytes, o_last, x);
+            wr32(bytes, o_x, END);
+            let data = img.sector_off(x);
+            for (i, b) in bytes[data..data + img.sector_len].iter_mut().enumerate() {
+                *b = 0xD1 ^ (i as u8);
+            }
+            done += 1;
+        }
+    }
+    done
+}
+
 /// A session on a synthesised image of `model` whose unowned bytes carry garbage
 /// (`Layout::dirty_slack`); None if the image fails its self-check or does not open
 /// (never a verdict: the caller falls back to a fresh file).
@@ -664,7 +703,19 @@ pub fn dirty_foreign_session(model: &Model, version: cfb::Version, bufsize: Opti
         }
     }
     if rng.chance(1, 2) {
+        // some writers leave 0 (or a stale number) in the start-sector field of an empty
+        // stream; a stream of length 0 owns no sector whatever that field says
+        if let Ok(img) = crate::refparse::parse(&bytes) {
+            for e in img.entries.iter().filter(|e| e.obj_type == 2 && e.size == 0) {
+                wr32(&mut bytes, e.off + 116, *rng.pick(&[0u32, 0, 1, 3]));
+            }
+        }
+    }
+    if rng.chance(1, 2) {
         overlong_mini_chains(&mut bytes, rng);
+    }
+    if rng.chance(1, 2) && bytes.len() % 512 == 0 {
+        overlong_regular_chains(&mut bytes, rng);
     }
     let mode = if rng.chance(1, 2) { crate::engine::Mode::Strict } else { crate::engine::Mode::Permissive };
     crate::engine::Session::open_bytes(bytes, mode, bufsize, model.clone()).ok()
